@@ -27,7 +27,7 @@ codes! { OpCode, OPS:
     NewKeyF = "newkeyf" / 1,       // key selector (see node::key_f)
     NewCyclic = "newcyclic" / 0,   // tmpl + closure script
     NewCyclicLeaf = "newcyclicleaf" / 1, // layout index + closure script
-    NewBorrowed = "newborrowed" / 1, // h (node whose store is mutably borrowed during the creation), tmpl
+    NewBorrowed = "newborrowed" / 2, // h (node whose store RefCell is borrowed during the creation), mode (0 = mutably, 1 = shared), tmpl
     NewDefault = "newdefault" / 0, // Cc::<KeyI>::default()
     Clone = "clone" / 1,           // h
     Drop = "drop" / 1,             // h
@@ -89,6 +89,9 @@ codes! { MiniCode, MINIS:
     CloneRootToSlot = "root2slot" / 2, // closure: the new node's slot i := clone of table handle h [clo]
     DowngradeRoot = "downgraderoot" / 1, // downgrade a table handle into the weak table [fin act]
     MarkAliveRoot = "markaliveroot" / 1, // [fin]
+    AllocCyclic = "alloccyclic" / 1, // Cc::new_cyclic(node with store kind) -> table [fin drop act]
+    SelfWeakToSlot = "selfweak2slot" / 1, // upgrade self_weak and store the result in the own slot i [fin]
+    WeakToSlot = "weak2slot" / 2,   // upgrade stored weak i and store the result in the own slot j  [fin]
 }
 
 #[derive(Clone, Copy, PartialEq, Eq, Debug, Hash)]
